@@ -1,8 +1,11 @@
 (* extraction of the executable C20 model; binary64 operations map to OCaml's native floats
    (ExtrOCamlFloats), 63-bit integers to Uint63 (ExtrOCamlInt63); Z/nat/positive stay inductives *)
 From Coq Require Import List ZArith QArith Floats Extraction ExtrOcamlBasic ExtrOCamlFloats ExtrOCamlInt63.
-From LN Require Import C20_Defs.
+From LN Require Import C20_Defs C20_FloatDefs.
 Extraction Language OCaml.
 Extraction "extracted/c20_model.ml" float_ops Z_ops Q_ops Z2F pct_position pct_lpos pct_rpos sort
   percentile_sorted percentile median median_sorted hist_bins histogram hist_bin
-  hist_from_percentiles_f hist_from_ratios fsort.
+  hist_from_percentiles_f hist_from_ratios fsort
+  (* extension: the position stage *)
+  pct_lpos_src pct_rpos_src percentile_fn percentile_iota float_dyadic pos_side_ok ref_lpos ref_rpos pos_reference
+  fmid fmid_prefix pct_in_range pct_le.
